@@ -41,6 +41,9 @@ def history(args):
     kind = K.jwe_key_kind(alg, enc)
     if alg.startswith("ECDH"):
         kind = ["EC:P-256", "EC:P-384", "EC:P-521", "EC:secp256k1", "OKP:X25519", "OKP:X448"][hash((alg, enc)) % 6]
+    if alg.startswith("PBES2"):
+        # the PBES2 "key" is a password of any length: a one-octet PIN, 8 octets, a longer passphrase
+        kind = ["oct8", "oct64", kind, "oct800"][part % 4]
     rj = K.get(kind, 0)
     sj = K.get(kind, 1) if alg.startswith("ECDH-1PU") else None
     key = J.jkey(J.pub(rj))
